@@ -78,6 +78,7 @@ TEXT countbytebodyCase<>(SB), NOSPLIT, $0
 
 head_loop:
 	MOVBU.P 1(R0), R5
+	ORR     $32, R5, R5 // Convert to lowercase
 	CMP     R5, R1
 	CINC    EQ, R11, R11
 	SUB     $1, R2, R2
